@@ -42,6 +42,9 @@ WHY = {
     "C15-4": "`genesis_hash` read from the sibling field `referenced_block` of `elements::PeginData`: the field list of a foreign-crate type is not among the extracted facts, so there is no sibling to compare names with",
     "C15-5": "`nonce_array` treats an explicit nonce as absent: a predicate on a runtime value (`is_confidential` vs `!is_null`)",
     "C16-7": "threshold satisfaction uses `any` instead of `all`: the and/or/threshold satisfaction logic is runtime behaviour that C16 states it does not decide",
+    "C12-11": "the human-readable witness map substitutes `Value::zero(commit-time target)` for a missing witness; the ill-typed value then passes through `finalize_unpruned`, whose missing type test is the known finding F-WIT (C12.check reports that route already); the Populator produces values for Construct nodes, outside the Redeem converters C12 judges",
+    "C15-8": "the issuance-presence test looks at `amount` only instead of `has_issuance()` (amount or inflation keys): a predicate on runtime values of a foreign-crate type",
+    "C17-10": "the exponent of `2^n` is parsed as `u16`, so `2^65536` and above are rejected: a numeric range of a parse, not a shape",
     "C16-9": "the threshold's selector bits use `binary_search` on a vector ordered by cost, not by index: whether a vector is sorted by the searched key is a runtime fact about its contents",
     "C05-8": "a byte-wise fast path in `Frame::copy_from` that forgets the source cursor's alignment: bit-offset arithmetic of the frame (C13, not applicable); C05 decides the interpreter's shape, not the frame primitives",
     "C12-9": "the loop that retries generated names skips every witness node instead of only typed holes, so an inline witness keeps a name the user defined: a condition on which node kinds take part in name retry; C17.names decides that generated names cannot clash lexically, not this retry policy",
